@@ -23,6 +23,25 @@ CHECKS = {
         note='Lexing is abstracted to line kinds (stub matcher); sibling tables are read by line-regex from generated sources and must yield 42 states/334 alternatives.',
         technique='explicit-state product construction to fixpoint + bounded exhaustive replay of all kind sequences through the real parser',
         ref='2/C02', engine='E1-E3'),
+    'C03': dict(
+        text='Generative document models (intent -> text -> expected AST): every derivation of <= N lines with unique labels and every document within k slot '
+             'deviations of nine structure-covering base documents (complete variant alphabets for names, texts, tags, cells, keywords, description and doc-string lines, '
+             'indentation, padding, line ends); the AST with locations/ids projected away must equal the model. Candidates are admitted only if the grammar automaton reads each line in the intended role.',
+        note='Expected ASTs come from the model renderer, not from a parser; documents beyond N lines / k deviations are not covered.',
+        technique='bounded exhaustive enumeration of document models rendered to text and replayed through the real parser',
+        ref='2/C03', engine='E5'),
+    'C04': dict(
+        text='Same model families with the renderer\'s recorded 1-based line / code-point column for every element compared with every AST location, plus a slicing oracle '
+             '(re-reading the source at each reported position) on all noisy documents from every control state, and error positions compared with the reference machine and with the position printed in the message.',
+        note='Positions are produced by the renderer or re-read from the source; bounds as in C03/C14.',
+        technique='bounded exhaustive enumeration of rendered models and noisy documents with position oracles',
+        ref='2/C04', engine='E5'),
+    'C12': dict(
+        text='All row strings over the character classes the splitter distinguishes up to length 8 (quick) / 10 (thorough) into GherkinLine.table_cells against an explicit 3-state splitter, '
+             'the same through the whole parser as data-table and examples rows, round trip of every escaped cell text up to length 4/5, and all 340 table shapes (<=4 rows, cell counts 0..3) as data and examples tables in first and non-first position.',
+        note='One representative per character class (rotated by VERIF_SEED); longer rows are not covered.',
+        technique='exhaustive enumeration of strings over character classes against a reference automaton',
+        ref='2/C12', engine='E6'),
     'C14': dict(
         text='Every document witness-prefix.w (one prefix per state of the generated machine and matcher mode, w over a 28-line alphabet, |w|<=K, '
              'with/without final newline) and error-cap families in both error modes and through the stream, compared error by error with a '
@@ -72,6 +91,10 @@ def main():
         'engines': [
             {'name': 'E1-E3', 'path': 'mc/berp.py mc/tables.py mc/kinds.py', 'serves_properties': ['C02', 'C18'],
              'kind_free_text': 'grammar subset automaton, transition tables extracted statically (6 parsers) and dynamically (running parser), kind-level run explorer'},
+            {'name': 'E5', 'path': 'mc/docmodel.py mc/gen.py', 'serves_properties': ['C03', 'C04', 'C11', 'C13'],
+             'kind_free_text': 'generative document models: intent -> text -> expected AST with positions and ids; structure and deviation enumerators'},
+            {'name': 'E6', 'path': 'mc/checks/c12.py mc/checks/c09.py', 'serves_properties': ['C12', 'C09'],
+             'kind_free_text': 'character-level enumerators over class alphabets against explicit reference automata'},
             {'name': 'E4', 'path': 'mc/ref.py mc/impl.py mc/docspace.py', 'serves_properties': ['C01', 'C03', 'C04', 'C14', 'C16', 'C18'],
              'kind_free_text': 'independent reference lexer/machine/builder/compiler (self-tested on the acceptance corpus) and bounded document spaces from every control state'},
         ],
